@@ -192,7 +192,8 @@ Record wf_app (a : app) : Prop := {
   w_shape : forall i, (i < length a)%nat ->
      (0 < p_len (port_at a i))%nat /\ (p_array (port_at a i) = false -> p_len (port_at a i) = 1%nat) /\
      (p_nodef (port_at a i) = false -> forall selv, length (default_with (port_at a i) selv) = p_len (port_at a i)) /\
-     (p_nodef (port_at a i) = true -> length (p_init (port_at a i)) = p_len (port_at a i))
+     (p_nodef (port_at a i) = true ->
+        length (p_init (port_at a i)) = p_len (port_at a i) /\ p_sel (port_at a i) = None)
 }.
 
 (* x has to be applied after y: y selects x's default, or allocates the object x lives in *)
@@ -777,7 +778,7 @@ Proof.
       * intros i Hi. three i; simpl; (split; [lia|]); (split; [try reflexivity; discriminate|]);
           (split; [intros Hnd; try discriminate Hnd; intros selv; unfold default_with; simpl;
                    destruct selv as [v|]; try reflexivity; destruct (sel_key v); reflexivity
-                  |intros Hnd; try discriminate Hnd; reflexivity]).
+                  |intros Hnd; try discriminate Hnd; split; reflexivity]).
     + intros i Hi. three i; reflexivity.
     + intros i x Hi Hx. change (saved fx_app fx_state) with [0%nat; 1%nat; 2%nat] in Hi.
       destruct Hi as [Hi|[Hi|[Hi|[]]]]; subst i; simpl in Hx;
